@@ -14,6 +14,9 @@ const (
 	DeletedOperationsKey = "deleted_operations"
 )
 
+// ErrOperationExists is returned by PutOperation when an operation with the same ID is already pending
+var ErrOperationExists = errors.New("operation already exists")
+
 type OperationRepo interface {
 	PutOperation(operation *types.Operation) error
 	DeleteOperation(operation *types.Operation) error
@@ -55,7 +58,7 @@ func (r *BaseOperationRepo) PutOperation(operation *types.Operation) error {
 	}
 
 	if _, ok := operations[operation.ID]; ok {
-		return fmt.Errorf("operation %s already exists", operation.ID)
+		return fmt.Errorf("operation %s already exists: %w", operation.ID, ErrOperationExists)
 	}
 
 	operations[operation.ID] = operation
